@@ -20,8 +20,9 @@
 (*   Greedy         VerifyMultiSignature: the first m signatures, each     *)
 (*                  matched to the first not-yet-used key POSITION         *)
 (*   VbftVerify     len(bk) >= m, every bookkeeper in the set, no repeats  *)
-(*   SoloVerify     address(bk) = NextBookkeeper of the parent (same key   *)
-(*                  multiset), m = n - (n-1)/3 over the header's own list  *)
+(*   SoloVerify     1..16 keys listed, address(bk) = NextBookkeeper of the  *)
+(*                  parent (same key multiset), m = n - (n-1)/3 over the   *)
+(*                  header's own list                                      *)
 (*   Hdr / Blk      AddHeader ; SubmitBlock / AddBlock.  AsIs = TRUE is    *)
 (*                  the code before fix 306f139 (block set assigned before *)
 (*                  the body can fail; named deviation, kept for the       *)
@@ -89,9 +90,13 @@ VbftVerify(rule, S, hd) ==
      /\ NoDup(hd.bk)
      /\ MultiSigOK(hd.bk, hd.sg, m)
 
-(* solo: fs is the key list the parent's NextBookkeeper commits to (as a set here; repeats never announced) *)
+(* solo: S is the key list the parent's NextBookkeeper commits to (as a set here; repeats never announced).        *)
+(* A bookkeeper address exists for 1..MaxKeys keys only (MULTI_SIG_MAX_PUBKEY_SIZE): since fixes fbe1a29 / ef67c94 a *)
+(* header listing no key or more than MaxKeys keys is refused outright (before them every such list hashed to the    *)
+(* empty address and matched an empty NextBookkeeper).                                                               *)
+MaxKeys == 16
 SoloVerify(S, hd) ==
-  /\ Len(hd.bk) >= 1
+  /\ Len(hd.bk) >= 1 /\ Len(hd.bk) <= MaxKeys
   /\ SortKeys(hd.bk) = SortedSeq(S)
   /\ MultiSigOK(hd.bk, hd.sg, BftThr(Len(hd.bk)))
 
@@ -106,7 +111,7 @@ Quorum(mode, rule, S, hd) == Cardinality(Signers(S, hd)) >= Need(mode, rule, Car
 Canonical(mode, rule, S, hd) ==
   /\ hd.sg = hd.bk /\ NoDup(hd.bk) /\ hd.body = "ok"
   /\ IF mode = "vbft" THEN SetOf(hd.bk) \subseteq S /\ Len(hd.bk) >= Need(mode, rule, Cardinality(S))
-                      ELSE SetOf(hd.bk) = S
+                      ELSE SetOf(hd.bk) = S /\ Cardinality(S) <= MaxKeys   \* no address, hence no canonical header, beyond MaxKeys
 MonSafety(mode, rule, S, hd, acc) == acc => Quorum(mode, rule, S, hd)
 MonRule(mode, rule, S, hd, acc)   == Canonical(mode, rule, S, hd) => acc
 MonNext(mode, S, hd, acc)         == IF acc THEN NextSet(mode, S, hd) ELSE S
